@@ -305,3 +305,96 @@ Definition std_ok (fs : fields) (d : option jv) : bool :=
   | Some (JObj o) => nodupb (map fst o) && no_variant (field_keys fs) o && std_ok_fields fs o
   | _ => true
   end.
+
+(* ------------------------------------------------------------------ type-directed re-casing *)
+
+(* canonical keys of the fields a struct reads from its object (embedded structs flattened) *)
+Fixpoint lowerkeys (fs : fields) : list string :=
+  match fs with
+  | FNil => []
+  | FCons key _ _ rest => lower key :: lowerkeys rest
+  | FEmbed _ _ inner rest => lowerkeys inner ++ lowerkeys rest
+  end.
+
+(* the type of the field a canonical key addresses *)
+Fixpoint ftype_of (lk : string) (fs : fields) : option ftype :=
+  match fs with
+  | FNil => None
+  | FCons key _ t rest => if String.eqb lk (lower key) then Some t else ftype_of lk rest
+  | FEmbed _ _ inner rest => match ftype_of lk inner with Some t => Some t | None => ftype_of lk rest end
+  end.
+
+(* no two fields of one struct share a canonical key (otherwise conf reports a conflict or merges) *)
+Fixpoint keys_distinct_t (t : ftype) : bool :=
+  match t with
+  | TPrim _ => true
+  | TPtr t' | TSlice t' | TMap t' => keys_distinct_t t'
+  | TStruct fs => nodupb (lowerkeys fs) && keys_distinct_fs fs
+  end
+with keys_distinct_fs (fs : fields) : bool :=
+  match fs with
+  | FNil => true
+  | FCons _ _ t rest => keys_distinct_t t && keys_distinct_fs rest
+  | FEmbed _ _ inner rest => keys_distinct_fs inner && keys_distinct_fs rest
+  end.
+Definition keys_distinct (fs : fields) : bool := nodupb (lowerkeys fs) && keys_distinct_fs fs.
+
+Definition doc_eqb (d d' : doc) : bool := recase_doc d d' fi_empty.
+
+(* [d'] is [d] with struct-field keys re-cased, ACCORDING TO THE TYPE: at a struct, an entry
+   whose key addresses a field (case-insensitively) may change the case of its key and is
+   compared at the field's type; every other entry is unchanged; through slices elementwise;
+   through maps with IDENTICAL keys (map keys are data); anything else unchanged. *)
+Fixpoint tr_val (t : ftype) (d d' : doc) {struct t} : bool :=
+  match t with
+  | TPrim _ => doc_eqb d d'
+  | TPtr t' => tr_val t' d d'
+  | TSlice e =>
+    match d, d' with
+    | DList l, DList l' =>
+      (fix go (l l' : docs) : bool :=
+         match l, l' with
+         | DLnil, DLnil => true
+         | DLcons x r, DLcons x' r' => tr_val e x x' && go r r'
+         | _, _ => false
+         end) l l'
+    | _, _ => doc_eqb d d'
+    end
+  | TMap e =>
+    match d, d' with
+    | DMap m, DMap m' =>
+      (fix go (m m' : dmap) : bool :=
+         match m, m' with
+         | DMnil, DMnil => true
+         | DMcons k x r, DMcons k' x' r' => String.eqb k k' && tr_val e x x' && go r r'
+         | _, _ => false
+         end) m m'
+    | _, _ => doc_eqb d d'
+    end
+  | TStruct fs =>
+    match d, d' with
+    | DMap m, DMap m' =>
+      (fix go (m m' : dmap) : bool :=
+         match m, m' with
+         | DMnil, DMnil => true
+         | DMcons k x r, DMcons k' x' r' =>
+           match tr_entry fs k x k' x' with
+           | Some b => b
+           | None => String.eqb k k' && doc_eqb x x'
+           end && go r r'
+         | _, _ => false
+         end) m m'
+    | _, _ => doc_eqb d d'
+    end
+  end
+with tr_entry (fs : fields) (k : string) (x : doc) (k' : string) (x' : doc) {struct fs} : option bool :=
+  match fs with
+  | FNil => None
+  | FCons key _ t rest =>
+    if String.eqb (lower k) (lower key) then Some (String.eqb (lower k) (lower k') && tr_val t x x')
+    else tr_entry rest k x k' x'
+  | FEmbed _ _ inner rest =>
+    match tr_entry inner k x k' x' with Some b => Some b | None => tr_entry rest k x k' x' end
+  end.
+
+Definition tr_top (T : fields) (d d' : doc) : bool := tr_val (TStruct T) d d'.
